@@ -31,6 +31,7 @@ declare -A CHECKS=(
  [C07k]="C07" [C07l]="C07" [C08k]="C08 C10" [C08l]="C08" [C09k]="C09" [C09l]="C09" [C10k]="C10" [C10l]="C10" [C11k]="C11" [C11l]="C11" [C12k]="C12 C16" [C12l]="C12"
  [C13k]="C13" [C13l]="C13" [C14k]="C14" [C14l]="C14" [C15k]="C15" [C15l]="C15" [C16q]="C16" [C16r]="C16" [C17k]="C17" [C17l]="C17" [C18k]="C18" [C18l]="C18"
  [C01m]="C01 C17" [C01n]="C01" [C02m]="C16 C02" [C02n]="C02" [C03m]="C03" [C03n]="C03" [C04m]="C04 C18" [C04n]="C04" [C09m]="C09" [C09n]="C09" [C11m]="C11 C15" [C11n]="C11" [C13m]="C13" [C13n]="C13" [C18m]="C18" [C18n]="C18"
+ [C05m]="C05" [C05n]="C05 C10" [C07m]="C07" [C07n]="C07" [C12m]="C12 C17" [C12n]="C12" [C14m]="C14" [C14n]="C14" [C17m]="C16 C17" [C17n]="C17" [C10m]="C10" [C10n]="C10 C05"
  [C13c]="C13" [C13d]="C13" [C14c]="C14" [C14d]="C14 C07" [C15c]="C15" [C15d]="C15" [C16c]="C16" [C16d]="C16"
 )
 for s in "$@"; do
@@ -57,7 +58,7 @@ for c in checks:
         case = re.search(r'case: (.*)', body); what = re.search(r'what: (.*)', body)
         det[c] = {'exit': code, 'first_case': case.group(1)[:200] if case else '', 'what': what.group(1)[:240] if what else ''}
 readme = open(f'/verif/seeded/{s}/README.md').read() if __import__('os').path.exists(f'/verif/seeded/{s}/README.md') else ''
-OVERRIDE = {'C02m': 'C16 (written against C02; it needs concurrent callers)', 'C08i': 'C10 (written against C08, which is conditional on acceptance; the change refuses long digit strings)', 'C12i': 'C16 (written against C12; it needs concurrent callers)', 'C12j': 'C16 (written against C12; it needs concurrent callers)', 'C14i': 'C07 (written against C14: the check character and CheckSum() agree with the drawn characters, which spell the wrong text)', 'C14j': 'C15 (and C07; written against C14: a state leak after a refused call)', 'C06j': 'C10 (written against C06: Encode of the empty string panics)', 'C08g': 'C10 (written against C08, which is conditional on acceptance; the change makes Encode panic)', 'C06e': 'C11 (written against C06, which it does not violate as stated; it drops the colour scheme)', 'C15f': 'C15 (and C11)'}
+OVERRIDE = {'C17m': 'C16 (written against C17; an unlocked read of the generator cache: it needs concurrent callers)', 'C02m': 'C16 (written against C02; it needs concurrent callers)', 'C08i': 'C10 (written against C08, which is conditional on acceptance; the change refuses long digit strings)', 'C12i': 'C16 (written against C12; it needs concurrent callers)', 'C12j': 'C16 (written against C12; it needs concurrent callers)', 'C14i': 'C07 (written against C14: the check character and CheckSum() agree with the drawn characters, which spell the wrong text)', 'C14j': 'C15 (and C07; written against C14: a state leak after a refused call)', 'C06j': 'C10 (written against C06: Encode of the empty string panics)', 'C08g': 'C10 (written against C08, which is conditional on acceptance; the change makes Encode panic)', 'C06e': 'C11 (written against C06, which it does not violate as stated; it drops the colour scheme)', 'C15f': 'C15 (and C11)'}
 meta = {'id': s, 'breaks_property': OVERRIDE.get(s, s[:3]), 'source': 'independent sub-agent given only the property text and a scratch worktree of /repo' + (' (second round: asked for cooperating sites, state leaks, rare arithmetic, feature interactions, interleavings; told which first-round changes to avoid)' if s[3] in 'cdefghijklmnopqr' else ''),
         'confirmed': {'patch_applies_to_HEAD': True, 'existing_suite_passes_with_change': suite_ok, 'demo_passes_on_clean_tree': clean, 'demo_fails_with_change': demo_fails},
         'what_i_ran': 'tools/try_seed.sh (scratch worktree: go build ./..., go test -count=1 ./..., the demo with and without the change; then ./check.sh <ID> --tier quick with VERIF_REPO=<worktree>)',
